@@ -52,6 +52,35 @@ def _normalise(tree):
     followed by ``return t`` (t used nowhere else in the function) reads as
     ``return <expr>``; a ``while True`` loop opened by ``if <t>: break``
     reads as ``while not <t>``."""
+    # statements and spellings without content: ``assert <true constant>``
+    # and ``pass`` next to other statements are dropped; x[0:n] is x[:n];
+    # ``None is x`` / ``None == x`` read ``x is None`` / ``x == None``
+    for holder in ast.walk(tree):
+        for field in ("body", "orelse", "finalbody"):
+            body = getattr(holder, field, None)
+            if not (isinstance(body, list) and body and
+                    isinstance(body[0], ast.stmt)):
+                continue
+            keep = [s_ for s_ in body if not (
+                isinstance(s_, ast.Pass) or (
+                    isinstance(s_, ast.Assert) and
+                    isinstance(s_.test, ast.Constant) and
+                    bool(s_.test.value) and s_.msg is None))]
+            if keep and len(keep) != len(body):
+                body[:] = keep
+        if isinstance(holder, ast.Slice) and holder.step is None and \
+                isinstance(holder.lower, ast.Constant) and \
+                holder.lower.value == 0 and \
+                not isinstance(holder.lower.value, bool):
+            holder.lower = None
+        if isinstance(holder, ast.Compare) and len(holder.ops) == 1 and \
+                isinstance(holder.ops[0], (ast.Is, ast.IsNot, ast.Eq,
+                                           ast.NotEq)) and \
+                isinstance(holder.left, ast.Constant) and \
+                holder.left.value is None and \
+                not isinstance(holder.comparators[0], ast.Constant):
+            holder.left, holder.comparators[0] = \
+                holder.comparators[0], holder.left
     # ``while True:`` whose first statement is ``if <t>: break`` reads as
     # ``while not <t>:`` (no else clause on either)
     for w in ast.walk(tree):
